@@ -23,6 +23,9 @@
 (*                           servers outside its model                        *)
 (*   "drop_no_withdraw"      reload_server drops a deleted server without     *)
 (*                           withdrawing what it published under it          *)
+(* and one a seeded change introduced (never in the pinned tree):             *)
+(*   "apps_event_no_unpublish"  an `apps` event naming an instance deleted     *)
+(*                           meanwhile removes it from the model only          *)
 EXTENDS MasterLagOps
 
 CONSTANTS MaxEvents, MaxCycles, StartupRace
@@ -34,6 +37,7 @@ VARIABLES S,      \* [store, m, dirty, evq, pub, phase, err] (MasterLagOps)
                   \*  m     = [alive, srv, cap, up, apps, placed] - the running master's model
                   \*  dirty = watched paths with an undelivered change
                   \*  evq   = servers named by undelivered `servers` events
+                  \*  aq    = instances named by undelivered `apps` events
                   \*  pub   = storage writes still to be issued by the current operation
                   \*  phase = "idle" | "pub" | "load" | "init" | "down"
                   \*  err   = a NEW master failed its own integrity check
@@ -65,6 +69,8 @@ DeleteServer(s) == /\ EnvGuard /\ EnvEnabled(S, "DeleteServer", <<s>>)
                    /\ S' = EnvDo(S, "DeleteServer", <<s>>) /\ EnvFrame
 CreateServer(s) == /\ EnvGuard /\ EnvEnabled(S, "CreateServer", <<s>>)
                    /\ S' = EnvDo(S, "CreateServer", <<s>>) /\ EnvFrame
+AppsEvent(a) == /\ EnvGuard /\ EnvEnabled(S, "AppsEvent", <<a>>)
+                /\ S' = EnvDo(S, "AppsEvent", <<a>>) /\ EnvFrame
 
 (* the master's handlers *)
 DeliverScheduled ==
@@ -76,6 +82,10 @@ DeliverPresence ==
 DeliverServers(s) ==
   /\ CanHandle(S) /\ s \in S.evq
   /\ S' = DeliverServersDo(S, s) /\ fresh' = FALSE /\ UNCHANGED <<n, nc>>
+
+DeliverApps(a) ==
+  /\ CanHandle(S) /\ a \in S.aq
+  /\ S' = DeliverAppsDo(S, a) /\ fresh' = FALSE /\ UNCHANGED <<n, nc>>
 
 Cycle(P) ==
   /\ CanHandle(S) /\ LegalP(S.m, P)
@@ -111,6 +121,8 @@ Next ==
   \/ \E s \in Srv : NodeUp(s)
   \/ \E s \in Srv : DeleteServer(s)
   \/ \E s \in Srv : CreateServer(s)
+  \/ \E a \in App : AppsEvent(a)
+  \/ \E a \in App : DeliverApps(a)
   \/ DeliverScheduled \/ DeliverPresence
   \/ \E s \in Srv : DeliverServers(s)
   \/ \E P \in [App -> Srv \cup {""}] : Cycle(P)
@@ -126,12 +138,12 @@ InvNoDup == \A a \in App : Cardinality(ServersOf(S.store, a)) <= 1
 InvNoAssert == ~S.err
 (* C09 under watch latency: once everything is delivered and a publication   *)
 (* has completed, store and model agree exactly                              *)
-Quiescent == S.dirty = {} /\ S.evq = {} /\ fresh /\ S.phase = "idle" /\ S.m.alive
+Quiescent == S.dirty = {} /\ S.evq = {} /\ S.aq = {} /\ fresh /\ S.phase = "idle" /\ S.m.alive
 InvSettled == Quiescent =>
   \A s \in Srv, a \in App : (a \in S.store.pl[s]) <=> (S.m.placed[a] = s)
 (* the master's view of scheduled instances / servers is the store's once    *)
 (* delivered (the handlers are complete)                                     *)
-InvView == (S.dirty = {} /\ S.evq = {} /\ S.m.alive /\ S.phase = "idle") =>
+InvView == (S.dirty = {} /\ S.evq = {} /\ S.aq = {} /\ S.m.alive /\ S.phase = "idle") =>
   /\ S.m.apps = S.store.sched
   /\ S.m.srv = {s \in Srv : S.store.rec[s] # "no"}
 =============================================================================
